@@ -12,7 +12,9 @@ use std::cell::RefCell;
 use std::collections::VecDeque;
 use std::panic::{catch_unwind, AssertUnwindSafe};
 use std::rc::Rc;
-use virtio_drivers::device::net::{RxBuffer, TxBuffer, VirtIONet, VirtIONetRaw};
+use virtio_drivers::device::net::VirtIONetRaw;
+#[cfg(feature = "alloc")]
+use virtio_drivers::device::net::{RxBuffer, TxBuffer, VirtIONet};
 use virtio_drivers::transport::DeviceType;
 use virtio_drivers::verif::Event;
 use virtio_drivers::Error;
@@ -337,7 +339,7 @@ fn raw<const N: usize>(ctx: &mut Ctx, features: u64, nops: usize, risky: bool) {
     ctx.tr.line(1600, &[features as u128, N as u128], &[neg as u128]);
     ctx.tr.line(1658, &[features as u128, neg as u128], &[1]);
     let (rxq, txq) = qaddrs(&st, N);
-    let ind = neg & F_IND != 0;
+    let ind = neg & F_IND != 0 && crate::scen::qrig::HAVE_INDIRECT;
     NIC.with(|c| *c.borrow_mut() = Some(Nic::new(rxq, txq, N, neg & F_EVT != 0)));
     let h = spec_hdr(neg);
     let mut next_id = 1u64;
@@ -541,9 +543,11 @@ fn raw<const N: usize>(ctx: &mut Ctx, features: u64, nops: usize, risky: bool) {
 
 // ------------------------------------------------------------------------------------------------
 // buffer-managing driver
+#[cfg(feature = "alloc")]
 fn rxbuf_id(b: &RxBuffer) -> u128 { BUFIDS.with(|m| m.borrow().get(&(b.as_bytes().as_ptr() as usize)).copied()).map(|x| x as u128).unwrap_or(77777) }
 
 /// mode 0: conforming device; 1: short used lengths (IoError path); 2: tokens not posted / out of range
+#[cfg(feature = "alloc")]
 fn vnet<const N: usize>(ctx: &mut Ctx, features: u64, buf_len: usize, nops: usize, mode: u8) {
     hal::reset();
     BUFIDS.with(|b| b.borrow_mut().clear());
@@ -713,6 +717,7 @@ fn raw_dyn(ctx: &mut Ctx, n: usize, features: u64, nops: usize, risky: bool) {
     match n { 1 => raw::<1>(ctx, features, nops, risky), 2 => raw::<2>(ctx, features, nops, risky), 4 => raw::<4>(ctx, features, nops, risky),
         8 => raw::<8>(ctx, features, nops, risky), 16 => raw::<16>(ctx, features, nops, risky), _ => raw::<64>(ctx, features, nops, risky) }
 }
+#[cfg(feature = "alloc")]
 fn vnet_dyn(ctx: &mut Ctx, n: usize, features: u64, buf_len: usize, nops: usize, mode: u8) {
     match n { 1 => vnet::<1>(ctx, features, buf_len, nops, mode), 2 => vnet::<2>(ctx, features, buf_len, nops, mode), 4 => vnet::<4>(ctx, features, buf_len, nops, mode),
         8 => vnet::<8>(ctx, features, buf_len, nops, mode), 16 => vnet::<16>(ctx, features, buf_len, nops, mode), _ => vnet::<64>(ctx, features, buf_len, nops, mode) }
@@ -721,6 +726,7 @@ fn vnet_dyn(ctx: &mut Ctx, n: usize, features: u64, buf_len: usize, nops: usize,
 /// C04 at driver level: the buffered network driver re-posts receive buffers under whatever token the queue hands out; each
 /// buffer must be unshared with its own range and the address its own share returned, whatever the order in which the caller
 /// gives buffers back (ledger line of every history)
+#[cfg(feature = "alloc")]
 pub fn run_recycle(ctx: &mut Ctx) {
     for (i, feats) in [0u64, F_V1, F_V1 | F_IND, F_V1 | F_EVT].iter().enumerate() {
         for n in [4usize, 8] {
@@ -744,19 +750,21 @@ pub fn run(ctx: &mut Ctx) {
             ctx.tr.scenario(&format!("c16-raw-risky-r{}-f{:x}-n{}", rep, feats, n));
             raw_dyn(ctx, if n == 1 { 2 } else { n }, feats, 60, true);
             let bl = [1528usize, 1535, 2048, 1536, 1528, 4096, 1600, 1528][(i + rep as usize) % 8];
-            ctx.tr.scenario(&format!("c16-vnet-r{}-f{:x}-n{}-b{}", rep, feats, n, bl));
-            vnet_dyn(ctx, n, feats, bl, 60 + 6 * n.min(16), 0);
+            #[cfg(feature = "alloc")]
+            { ctx.tr.scenario(&format!("c16-vnet-r{}-f{:x}-n{}-b{}", rep, feats, n, bl)); vnet_dyn(ctx, n, feats, bl, 60 + 6 * n.min(16), 0); }
         }
         // buffer lengths around MIN_BUFFER_LEN and its rounding
         // ... and beyond 2^16 (lengths are usize / u32 everywhere: a frame of 65536 bytes and more must come back whole)
         for bl in [0usize, 7, 1519, 1520, 1525, 1526, 1527, 1528, 1529, 65535, 65536, 65560, 70000] {
-            ctx.tr.scenario(&format!("c16-vnet-buflen-r{}-b{}", rep, bl));
-            vnet_dyn(ctx, 4, if bl % 2 == 0 { F_V1 } else { 0 }, bl, 30, 0);
+            #[cfg(feature = "alloc")]
+            { ctx.tr.scenario(&format!("c16-vnet-buflen-r{}-b{}", rep, bl)); vnet_dyn(ctx, 4, if bl % 2 == 0 { F_V1 } else { 0 }, bl, 30, 0); }
         }
         // devices that break the protocol: the model must still predict every result
         for (i, b) in [0u64, F_V1, F_V1 | F_IND | F_EVT].iter().enumerate() {
-            ctx.tr.scenario(&format!("c16-vnet-shortlen-r{}-{}", rep, i)); vnet_dyn(ctx, 4, *b, 1528, 60, 1);
-            ctx.tr.scenario(&format!("c16-vnet-badtoken-r{}-{}", rep, i)); vnet_dyn(ctx, 4, *b, 1528, 60, 2);
+            #[cfg(feature = "alloc")]
+            { ctx.tr.scenario(&format!("c16-vnet-shortlen-r{}-{}", rep, i)); vnet_dyn(ctx, 4, *b, 1528, 60, 1); }
+            #[cfg(feature = "alloc")]
+            { ctx.tr.scenario(&format!("c16-vnet-badtoken-r{}-{}", rep, i)); vnet_dyn(ctx, 4, *b, 1528, 60, 2); }
         }
     }
 }
